@@ -1,5 +1,6 @@
 import Votca.Lemmas.C07
 import Votca.Props.C12
+import Mathlib.Tactic.FinCases
 /-! # C07 — property theorems: every analytic derivative is the derivative of its value function
 
 About the gradient formulas of `Votca/Model/C07.lean` (instantiated over ℝ with `Real.sqrt` for the norm witnesses) and
@@ -11,6 +12,27 @@ open Real Votca.Gen.PotReal
 
 /-- cosine of the angle between two vectors, as `EvaluateVar` forms it -/
 noncomputable def cosA (a b : Vec ℝ) : ℝ := a.dot b / (sqrt (a.dot a) * sqrt (b.dot b))
+
+/-- away from collinear vectors the witness `s = √(1 - cos²)` is not zero (Cauchy–Schwarz) -/
+theorem sin_witness_ne_zero (v1 v2 : Vec ℝ) (h1 : 0 < v1.dot v1) (h2 : 0 < v2.dot v2)
+    (hc1 : cosA v1 v2 ≠ -1) (hc2 : cosA v1 v2 ≠ 1) : sqrt (1 - cosA v1 v2 ^ 2) ≠ 0 := by
+  apply (sqrt_pos.2 _).ne'
+  have : cosA v1 v2 ^ 2 < 1 := by
+    have hle : |cosA v1 v2| ≤ 1 := by
+      unfold cosA
+      rw [abs_div, abs_of_pos (mul_pos (sqrt_pos.2 h1) (sqrt_pos.2 h2)), div_le_one (mul_pos (sqrt_pos.2 h1) (sqrt_pos.2 h2))]
+      rw [← sqrt_mul h1.le]
+      apply Real.abs_le_sqrt
+      simp only [Vec.dot]
+      nlinarith [sq_nonneg (v1.x * v2.y - v1.y * v2.x), sq_nonneg (v1.x * v2.z - v1.z * v2.x), sq_nonneg (v1.y * v2.z - v1.z * v2.y)]
+    have hlt : |cosA v1 v2| < 1 := lt_of_le_of_ne hle (by
+      intro h
+      rcases abs_eq (by norm_num : (0 : ℝ) ≤ 1) |>.mp h with h | h
+      · exact hc2 h
+      · exact hc1 h)
+    have := sq_lt_one_iff_abs_lt_one (cosA v1 v2) |>.mpr hlt
+    linarith
+  linarith
 
 /-! ## bond -/
 
@@ -40,32 +62,14 @@ theorem angle_grad0_is_derivative (v1 v2 e : Vec ℝ) (h1 : 0 < v1.dot v1) (h2 :
     HasDerivAt (fun t => arccos (cosA (line v1 e t) v2))
       ((angleGrad 0 v1 v2 (sqrt (v1.dot v1)) (sqrt (v2.dot v2)) (sqrt (1 - cosA v1 v2 ^ 2))).dot e) 0 := by
   have hcos := hasDerivAt_cos_line v1 e v2 h1 h2
-  have h0 : (fun t => cosA (line v1 e t) v2) 0 = cosA v1 v2 := by simp [cosA, line_zero]
-  have := hasDerivAt_sign_arccos (fun t => cosA (line v1 e t) v2) _ 0 1 hcos (by rw [h0]; exact hc1) (by rw [h0]; exact hc2)
+  have h0 : cosA (line v1 e 0) v2 = cosA v1 v2 := by rw [line_zero]
+  have := hasDerivAt_sign_arccos (fun t => cosA (line v1 e t) v2) _ 0 1 hcos (by simp only [h0]; exact hc1) (by simp only [h0]; exact hc2)
   simp only [one_mul] at this
   refine this.congr_deriv ?_
-  rw [h0]
+  simp only [h0]
   have hn1 : sqrt (v1.dot v1) ≠ 0 := (sqrt_pos.2 h1).ne'
   have hn2 : sqrt (v2.dot v2) ≠ 0 := (sqrt_pos.2 h2).ne'
-  have hs : sqrt (1 - cosA v1 v2 ^ 2) ≠ 0 := by
-    apply (sqrt_pos.2 _).ne'
-    have : cosA v1 v2 ^ 2 < 1 := by
-      have hle : |cosA v1 v2| ≤ 1 := by
-        unfold cosA
-        rw [abs_div, abs_of_pos (mul_pos (sqrt_pos.2 h1) (sqrt_pos.2 h2)), div_le_one (mul_pos (sqrt_pos.2 h1) (sqrt_pos.2 h2))]
-        rw [← sqrt_mul h1.le]
-        apply Real.abs_le_sqrt
-        -- Cauchy–Schwarz in three dimensions
-        simp only [Vec.dot]
-        nlinarith [sq_nonneg (v1.x * v2.y - v1.y * v2.x), sq_nonneg (v1.x * v2.z - v1.z * v2.x), sq_nonneg (v1.y * v2.z - v1.z * v2.y)]
-      have hlt : |cosA v1 v2| < 1 := lt_of_le_of_ne hle (by
-        intro h
-        rcases abs_eq (by norm_num : (0 : ℝ) ≤ 1) |>.mp h with h | h
-        · exact hc2 h
-        · exact hc1 h)
-      have := sq_lt_one_iff_abs_lt_one (cosA v1 v2) |>.mpr hlt
-      linarith
-    linarith
+  have hs : sqrt (1 - cosA v1 v2 ^ 2) ≠ 0 := sin_witness_ne_zero v1 v2 h1 h2 hc1 hc2
   simp only [angleGrad, Vec.dot, Vec.add, Vec.neg, Vec.sdiv, Vec.smul, if_pos]
   field_simp
   ring
@@ -95,5 +99,266 @@ theorem angle_grad_sum_zero (v1 v2 : Vec ℝ) (n1 n2 s : ℝ) (h1 : n1 ≠ 0) (h
   simp only [angleGrad, Vec.dot, Vec.add, Vec.sub, Vec.neg, Vec.sdiv, Vec.smul]
   norm_num
   refine ⟨?_, ?_, ?_⟩ <;> field_simp <;> ring
+
+/-! ## dihedral -/
+
+theorem cross_line_left (v1 v2 e : Vec ℝ) (t : ℝ) :
+    (line v1 e.neg t).cross v2 = line (v1.cross v2) (v2.cross e) t := by
+  simp only [line, Vec.cross, Vec.neg, Vec.mk.injEq]
+  refine ⟨by ring, by ring, by ring⟩
+
+theorem cross_line_right (v2 v3 e : Vec ℝ) (t : ℝ) :
+    v2.cross (line v3 e t) = line (v2.cross v3) (v2.cross e) t := by
+  simp only [line, Vec.cross, Vec.mk.injEq]
+  refine ⟨by ring, by ring, by ring⟩
+
+/-- `IDihedral`, bead 0 (`v1 = getDist(b0,b1)` becomes `v1 - t e`): `sign·acos(cos(n1,n2))` changes at the rate
+`Grad(0)·e`.  Hypotheses: both normals are non-zero and not parallel; `sign` is the (locally constant) sign factor. -/
+theorem dihedral_grad0_is_derivative (v1 v2 v3 e : Vec ℝ) (sign : ℝ)
+    (h1 : 0 < (v1.cross v2).dot (v1.cross v2)) (h2 : 0 < (v2.cross v3).dot (v2.cross v3))
+    (hc1 : cosA (v1.cross v2) (v2.cross v3) ≠ -1) (hc2 : cosA (v1.cross v2) (v2.cross v3) ≠ 1) :
+    HasDerivAt (fun t => sign * arccos (cosA ((line v1 e.neg t).cross v2) (v2.cross v3)))
+      ((dihedralGrad 0 1 0 v1 v2 v3 (sqrt ((v1.cross v2).dot (v1.cross v2))) (sqrt ((v2.cross v3).dot (v2.cross v3)))
+          (sqrt (1 - cosA (v1.cross v2) (v2.cross v3) ^ 2)) sign).dot e) 0 := by
+  have hf : (fun t => sign * arccos (cosA ((line v1 e.neg t).cross v2) (v2.cross v3))) =
+      fun t => sign * arccos (cosA (line (v1.cross v2) (v2.cross e) t) (v2.cross v3)) := by
+    funext t; rw [cross_line_left]
+  rw [hf]
+  have hcos := hasDerivAt_cos_line (v1.cross v2) (v2.cross e) (v2.cross v3) h1 h2
+  have h0 : cosA (line (v1.cross v2) (v2.cross e) 0) (v2.cross v3) = cosA (v1.cross v2) (v2.cross v3) := by rw [line_zero]
+  have := hasDerivAt_sign_arccos (fun t => cosA (line (v1.cross v2) (v2.cross e) t) (v2.cross v3)) _ 0 sign hcos
+    (by simp only [h0]; exact hc1) (by simp only [h0]; exact hc2)
+  refine this.congr_deriv ?_
+  simp only [h0]
+  have hn1 : sqrt ((v1.cross v2).dot (v1.cross v2)) ≠ 0 := (sqrt_pos.2 h1).ne'
+  have hn2 : sqrt ((v2.cross v3).dot (v2.cross v3)) ≠ 0 := (sqrt_pos.2 h2).ne'
+  have hs := sin_witness_ne_zero _ _ h1 h2 hc1 hc2
+  generalize sqrt ((v1.cross v2).dot (v1.cross v2)) = m1 at *
+  generalize sqrt ((v2.cross v3).dot (v2.cross v3)) = m2 at *
+  generalize sqrt (1 - cosA (v1.cross v2) (v2.cross v3) ^ 2) = s at *
+  simp only [dihedralGrad, dihedralComp, unitVec, Vec.dot, Vec.cross, Vec.add]
+  norm_num
+  field_simp
+  ring
+
+/-- `IDihedral`, bead 3 (`v3 = getDist(b2,b3)` becomes `v3 + t e`) -/
+theorem dihedral_grad3_is_derivative (v1 v2 v3 e : Vec ℝ) (sign : ℝ)
+    (h1 : 0 < (v1.cross v2).dot (v1.cross v2)) (h2 : 0 < (v2.cross v3).dot (v2.cross v3))
+    (hc1 : cosA (v1.cross v2) (v2.cross v3) ≠ -1) (hc2 : cosA (v1.cross v2) (v2.cross v3) ≠ 1) :
+    HasDerivAt (fun t => sign * arccos (cosA (v1.cross v2) (v2.cross (line v3 e t))))
+      ((dihedralGrad 0 1 3 v1 v2 v3 (sqrt ((v1.cross v2).dot (v1.cross v2))) (sqrt ((v2.cross v3).dot (v2.cross v3)))
+          (sqrt (1 - cosA (v1.cross v2) (v2.cross v3) ^ 2)) sign).dot e) 0 := by
+  have hf : (fun t => sign * arccos (cosA (v1.cross v2) (v2.cross (line v3 e t)))) =
+      fun t => sign * arccos (cosA (line (v2.cross v3) (v2.cross e) t) (v1.cross v2)) := by
+    funext t; rw [cross_line_right, cosA_comm]
+  rw [hf]
+  have hcos := hasDerivAt_cos_line (v2.cross v3) (v2.cross e) (v1.cross v2) h2 h1
+  have h0 : cosA (line (v2.cross v3) (v2.cross e) 0) (v1.cross v2) = cosA (v1.cross v2) (v2.cross v3) := by
+    rw [line_zero, cosA_comm]
+  have := hasDerivAt_sign_arccos (fun t => cosA (line (v2.cross v3) (v2.cross e) t) (v1.cross v2)) _ 0 sign hcos
+    (by simp only [h0]; exact hc1) (by simp only [h0]; exact hc2)
+  refine this.congr_deriv ?_
+  simp only [h0]
+  have hn1 : sqrt ((v1.cross v2).dot (v1.cross v2)) ≠ 0 := (sqrt_pos.2 h1).ne'
+  have hn2 : sqrt ((v2.cross v3).dot (v2.cross v3)) ≠ 0 := (sqrt_pos.2 h2).ne'
+  have hs := sin_witness_ne_zero _ _ h1 h2 hc1 hc2
+  generalize sqrt ((v1.cross v2).dot (v1.cross v2)) = m1 at *
+  generalize sqrt ((v2.cross v3).dot (v2.cross v3)) = m2 at *
+  generalize sqrt (1 - cosA (v1.cross v2) (v2.cross v3) ^ 2) = s at *
+  simp only [dihedralGrad, dihedralComp, unitVec, Vec.dot, Vec.cross, Vec.add]
+  norm_num
+  field_simp
+  ring
+
+/-- the four dihedral gradients sum to zero, for any non-zero witnesses -/
+theorem dihedral_grad_sum_zero (v1 v2 v3 : Vec ℝ) (m1 m2 s sign : ℝ) (h1 : m1 ≠ 0) (h2 : m2 ≠ 0) (hs : s ≠ 0) :
+    (((dihedralGrad 0 1 0 v1 v2 v3 m1 m2 s sign).add (dihedralGrad 0 1 1 v1 v2 v3 m1 m2 s sign)).add
+      (dihedralGrad 0 1 2 v1 v2 v3 m1 m2 s sign)).add (dihedralGrad 0 1 3 v1 v2 v3 m1 m2 s sign) = ⟨0, 0, 0⟩ := by
+  simp only [dihedralGrad, dihedralComp, unitVec, Vec.dot, Vec.cross, Vec.add, Vec.mk.injEq]
+  norm_num
+  refine ⟨?_, ?_, ?_⟩ <;> field_simp <;> ring
+
+/-! ## potential functions: the formulas regenerated from the source (`Gen/PotReal.lean`)
+
+`HasDerivAt (fun x => F … x …) (DF i …) λ_i`: `CalculateDF(i)` is the partial derivative of `CalculateF` with respect to
+parameter `i`; `HasDerivAt (fun x => DF i … x …) (D2F i j …) λ_j` likewise for the second derivatives. -/
+
+section lj126
+variable (l0 l1 r : ℝ)
+
+theorem lj126_DF0_is_derivative : HasDerivAt (fun x => lj126F x l1 r) (lj126DF 0 l0 l1 r) l0 := by
+  have hf : (fun x => lj126F x l1 r) = fun x => (1 / r ^ 12) * x + (-(l1 / r ^ 6)) := by funext x; unfold lj126F; ring
+  rw [hf]
+  exact (hd_lin _ _ l0).congr_deriv (by simp [lj126DF])
+
+theorem lj126_DF1_is_derivative : HasDerivAt (fun x => lj126F l0 x r) (lj126DF 1 l0 l1 r) l1 := by
+  have hf : (fun x => lj126F l0 x r) = fun x => (-(1 / r ^ 6)) * x + (l0 / r ^ 12) := by funext x; unfold lj126F; ring
+  rw [hf]
+  exact (hd_lin _ _ l1).congr_deriv (by simp [lj126DF]; ring)
+
+/-- the first derivatives do not depend on the parameters, and `CalculateD2F` is 0 -/
+theorem lj126_D2F_is_derivative (i j : Nat) (m0 m1 : ℝ) :
+    lj126DF i l0 l1 r = lj126DF i m0 m1 r ∧ lj126D2F i j l0 l1 r = 0 := ⟨rfl, rfl⟩
+
+end lj126
+
+section ljg
+variable (l0 l1 l2 l3 l4 r : ℝ)
+
+theorem ljg_DF0_is_derivative : HasDerivAt (fun x => ljgF x l1 l2 l3 l4 r) (ljgDF 0 l0 l1 l2 l3 l4 r) l0 := by
+  have hf : (fun x => ljgF x l1 l2 l3 l4 r) =
+      fun x => (1 / r ^ 12) * x + (-(l1 / r ^ 6) + l2 * exp (-1 * l3 * (r - l4) * (r - l4))) := by
+    funext x; unfold ljgF; ring
+  rw [hf]
+  exact (hd_lin _ _ l0).congr_deriv (by simp [ljgDF])
+
+theorem ljg_DF1_is_derivative : HasDerivAt (fun x => ljgF l0 x l2 l3 l4 r) (ljgDF 1 l0 l1 l2 l3 l4 r) l1 := by
+  have hf : (fun x => ljgF l0 x l2 l3 l4 r) =
+      fun x => (-(1 / r ^ 6)) * x + (l0 / r ^ 12 + l2 * exp (-1 * l3 * (r - l4) * (r - l4))) := by
+    funext x; unfold ljgF; ring
+  rw [hf]
+  exact (hd_lin _ _ l1).congr_deriv (by simp [ljgDF]; ring)
+
+theorem ljg_DF2_is_derivative : HasDerivAt (fun x => ljgF l0 l1 x l3 l4 r) (ljgDF 2 l0 l1 l2 l3 l4 r) l2 := by
+  have hf : (fun x => ljgF l0 l1 x l3 l4 r) =
+      fun x => exp (-1 * l3 * (r - l4) * (r - l4)) * x + (l0 / r ^ 12 - l1 / r ^ 6) := by
+    funext x; unfold ljgF; ring
+  rw [hf]
+  exact (hd_lin _ _ l2).congr_deriv (by simp [ljgDF])
+
+theorem ljg_DF3_is_derivative : HasDerivAt (fun x => ljgF l0 l1 l2 x l4 r) (ljgDF 3 l0 l1 l2 l3 l4 r) l3 := by
+  have hf : (fun x => ljgF l0 l1 l2 x l4 r) =
+      fun x => (l0 / r ^ 12 - l1 / r ^ 6) + l2 * exp ((-((r - l4) * (r - l4))) * x + 0) := by
+    funext x; unfold ljgF; ring_nf
+  rw [hf]
+  refine (hasDerivAt_gauss _ (fun _ => l2) _ 0 _ l3 (hasDerivAt_const l3 l2) (hd_lin (-((r - l4) * (r - l4))) 0 l3)).congr_deriv ?_
+  simp only [ljgDF]; ring_nf
+
+theorem ljg_DF4_is_derivative : HasDerivAt (fun x => ljgF l0 l1 l2 l3 x r) (ljgDF 4 l0 l1 l2 l3 l4 r) l4 := by
+  have hf : (fun x => ljgF l0 l1 l2 l3 x r) =
+      fun x => (l0 / r ^ 12 - l1 / r ^ 6) + l2 * exp ((-l3) * (r - x) * (r - x)) := by
+    funext x; unfold ljgF; ring_nf
+  rw [hf]
+  refine (hasDerivAt_gauss _ (fun _ => l2) _ 0 _ l4 (hasDerivAt_const l4 l2) (hd_sq (-l3) r l4)).congr_deriv ?_
+  simp only [ljgDF]; ring_nf
+
+/-! second derivatives: `CalculateD2F(i, j)` is the derivative of `CalculateDF(i)` with respect to parameter `j` -/
+
+theorem ljg_D2F_23 : HasDerivAt (fun x => ljgDF 2 l0 l1 l2 x l4 r) (ljgD2F 2 3 l0 l1 l2 l3 l4 r) l3 := by
+  have hf : (fun x => ljgDF 2 l0 l1 l2 x l4 r) = fun x => 0 + 1 * exp ((-((r - l4) * (r - l4))) * x + 0) := by
+    funext x; simp only [ljgDF]; ring_nf
+  rw [hf]
+  refine (hasDerivAt_gauss 0 (fun _ => 1) _ 0 _ l3 (hasDerivAt_const l3 1) (hd_lin (-((r - l4) * (r - l4))) 0 l3)).congr_deriv ?_
+  simp only [ljgD2F]; ring_nf
+
+theorem ljg_D2F_24 : HasDerivAt (fun x => ljgDF 2 l0 l1 l2 l3 x r) (ljgD2F 2 4 l0 l1 l2 l3 l4 r) l4 := by
+  have hf : (fun x => ljgDF 2 l0 l1 l2 l3 x r) = fun x => 0 + 1 * exp ((-l3) * (r - x) * (r - x)) := by
+    funext x; simp only [ljgDF]; ring_nf
+  rw [hf]
+  refine (hasDerivAt_gauss 0 (fun _ => 1) _ 0 _ l4 (hasDerivAt_const l4 1) (hd_sq (-l3) r l4)).congr_deriv ?_
+  simp only [ljgD2F]; ring_nf
+
+theorem ljg_D2F_32 : HasDerivAt (fun x => ljgDF 3 l0 l1 x l3 l4 r) (ljgD2F 3 2 l0 l1 l2 l3 l4 r) l2 := by
+  have hf : (fun x => ljgDF 3 l0 l1 x l3 l4 r) =
+      fun x => (-((r - l4) * (r - l4)) * exp (-1 * l3 * (r - l4) * (r - l4))) * x + 0 := by
+    funext x; simp only [ljgDF]; ring
+  rw [hf]
+  exact (hd_lin _ _ l2).congr_deriv (by simp only [ljgD2F]; ring)
+
+theorem ljg_D2F_33 : HasDerivAt (fun x => ljgDF 3 l0 l1 l2 x l4 r) (ljgD2F 3 3 l0 l1 l2 l3 l4 r) l3 := by
+  have hf : (fun x => ljgDF 3 l0 l1 l2 x l4 r) =
+      fun x => 0 + (-(l2 * ((r - l4) * (r - l4)))) * exp ((-((r - l4) * (r - l4))) * x + 0) := by
+    funext x; simp only [ljgDF]; ring_nf
+  rw [hf]
+  refine (hasDerivAt_gauss 0 (fun _ => -(l2 * ((r - l4) * (r - l4)))) _ 0 _ l3 (hasDerivAt_const l3 _)
+    (hd_lin (-((r - l4) * (r - l4))) 0 l3)).congr_deriv ?_
+  simp only [ljgD2F]; ring_nf
+
+theorem ljg_D2F_34 : HasDerivAt (fun x => ljgDF 3 l0 l1 l2 l3 x r) (ljgD2F 3 4 l0 l1 l2 l3 l4 r) l4 := by
+  have hf : (fun x => ljgDF 3 l0 l1 l2 l3 x r) =
+      fun x => 0 + ((-l2) * (r - x) * (r - x)) * exp ((-l3) * (r - x) * (r - x)) := by
+    funext x; simp only [ljgDF]; ring_nf
+  rw [hf]
+  refine (hasDerivAt_gauss 0 _ _ _ _ l4 (hd_sq (-l2) r l4) (hd_sq (-l3) r l4)).congr_deriv ?_
+  simp only [ljgD2F]; ring_nf
+
+theorem ljg_D2F_42 : HasDerivAt (fun x => ljgDF 4 l0 l1 x l3 l4 r) (ljgD2F 4 2 l0 l1 l2 l3 l4 r) l2 := by
+  have hf : (fun x => ljgDF 4 l0 l1 x l3 l4 r) =
+      fun x => (2 * l3 * (r - l4) * exp (-1 * l3 * (r - l4) * (r - l4))) * x + 0 := by
+    funext x; simp only [ljgDF]; ring
+  rw [hf]
+  exact (hd_lin _ _ l2).congr_deriv (by simp only [ljgD2F])
+
+theorem ljg_D2F_43 : HasDerivAt (fun x => ljgDF 4 l0 l1 l2 x l4 r) (ljgD2F 4 3 l0 l1 l2 l3 l4 r) l3 := by
+  have hf : (fun x => ljgDF 4 l0 l1 l2 x l4 r) =
+      fun x => 0 + ((2 * l2 * (r - l4)) * x + 0) * exp ((-((r - l4) * (r - l4))) * x + 0) := by
+    funext x; simp only [ljgDF]; ring_nf
+  rw [hf]
+  refine (hasDerivAt_gauss 0 _ _ _ _ l3 (hd_lin (2 * l2 * (r - l4)) 0 l3) (hd_lin (-((r - l4) * (r - l4))) 0 l3)).congr_deriv ?_
+  simp only [ljgD2F]; ring_nf
+
+theorem ljg_D2F_44 : HasDerivAt (fun x => ljgDF 4 l0 l1 l2 l3 x r) (ljgD2F 4 4 l0 l1 l2 l3 l4 r) l4 := by
+  have hf : (fun x => ljgDF 4 l0 l1 l2 l3 x r) =
+      fun x => 0 + ((-(2 * l2 * l3)) * x + 2 * l2 * l3 * r) * exp ((-l3) * (r - x) * (r - x)) := by
+    funext x; simp only [ljgDF]; ring_nf
+  rw [hf]
+  refine (hasDerivAt_gauss 0 _ _ _ _ l4 (hd_lin (-(2 * l2 * l3)) (2 * l2 * l3 * r) l4) (hd_sq (-l3) r l4)).congr_deriv ?_
+  simp only [ljgD2F]; ring_nf
+
+/-- the remaining entries: `DF 0`, `DF 1` do not depend on any parameter, `DF 2` not on λ₀, λ₁, λ₂, and `DF 3`, `DF 4` not on
+λ₀, λ₁ (definitional), and the corresponding `D2F` entries are 0 -/
+theorem ljg_D2F_zero_entries (i j : Fin 5) (h : i.val < 2 ∨ j.val < 2 ∨ (i.val = 2 ∧ j.val = 2)) :
+    ljgD2F i.val j.val l0 l1 l2 l3 l4 r = 0 := by
+  fin_cases i <;> fin_cases j <;> simp_all [ljgD2F]
+
+theorem ljg_DF_constant_in (m0 m1 m2 m3 m4 : ℝ) :
+    ljgDF 0 l0 l1 l2 l3 l4 r = ljgDF 0 m0 m1 m2 m3 m4 r ∧ ljgDF 1 l0 l1 l2 l3 l4 r = ljgDF 1 m0 m1 m2 m3 m4 r ∧
+    ljgDF 2 l0 l1 l2 l3 l4 r = ljgDF 2 m0 m1 m2 l3 l4 r ∧ ljgDF 3 l0 l1 l2 l3 l4 r = ljgDF 3 m0 m1 l2 l3 l4 r ∧
+    ljgDF 4 l0 l1 l2 l3 l4 r = ljgDF 4 m0 m1 l2 l3 l4 r := ⟨rfl, rfl, rfl, rfl, rfl⟩
+
+/-- the matrix of second derivatives is symmetric -/
+theorem ljg_D2F_symmetric (i j : Fin 5) : ljgD2F i.val j.val l0 l1 l2 l3 l4 r = ljgD2F j.val i.val l0 l1 l2 l3 l4 r := by
+  fin_cases i <;> fin_cases j <;> simp [ljgD2F]
+
+end ljg
+
+/-! ## cubic B-spline potential: linear in its coefficients -/
+
+/-- the four basis values sum to one -/
+theorem bspl_partition_of_unity (t : Rat) : (bsplRow t).sum = 1 := by
+  simp only [bsplRow, List.sum_cons, List.sum_nil]; ring
+
+/-- changing coefficient `j` of the window by `δ` changes the value by `δ ·` (basis value `j`): the derivative with respect
+to that coefficient is the basis value `CalculateDF` returns, and all second derivatives vanish -/
+theorem dotL_update (row win : List Rat) (j : Nat) (δ : Rat) (hj : j < win.length) (hr : row.length = win.length) :
+    dotL row (win.set j (win.getD j 0 + δ)) = dotL row win + δ * row.getD j 0 := by
+  induction row generalizing win j with
+  | nil => simp at hr; omega
+  | cons a as ih =>
+    cases win with
+    | nil => simp at hj
+    | cons b bs =>
+      cases j with
+      | zero => simp [dotL]; ring
+      | succ k =>
+        simp only [List.set_cons_succ, dotL, List.getD_cons_succ]
+        rw [ih bs k (by simpa using hj) (by simpa using hr)]
+        ring
+
+/-! ## splines: the reported derivative is the derivative of the reported value (C12) -/
+
+open Votca.C12 in
+/-- `CubicSpline::CalculateDerivative` is the derivative of `Calculate`: the first-order Taylor remainder is `e²·(…)` -/
+theorem cubic_spline_derivative (xs fs f2 : List Rat) (i : Nat) (r e : Rat) (h : nth xs (i + 1) - nth xs i ≠ 0) :
+    cubicCalcAt xs fs f2 i (r + e) - cubicCalcAt xs fs f2 i r - e * cubicDerivAt xs fs f2 i r =
+      e ^ 2 * ((1 / 2 - (3 * (r - nth xs i) + e) / (6 * (nth xs (i + 1) - nth xs i))) * nth f2 i +
+               ((3 * (r - nth xs i) + e) / (6 * (nth xs (i + 1) - nth xs i))) * nth f2 (i + 1)) :=
+  Votca.C12.cubic_deriv_is_derivative xs fs f2 i r e h
+
+open Votca.C12 in
+theorem akima_spline_derivative (h y0 y1 t0 t1 z e : Rat) :
+    akimaPiece h y0 y1 t0 t1 (z + e) - akimaPiece h y0 y1 t0 t1 z - e * akimaPieceDeriv h y0 y1 t0 t1 z =
+      e ^ 2 * (akimaP2 h y0 y1 t0 t1 + akimaP3 h y0 y1 t0 t1 * (3 * z + e)) :=
+  Votca.C12.akima_deriv_is_derivative h y0 y1 t0 t1 z e
 
 end Votca.C07
